@@ -102,6 +102,8 @@ def run_c17(prop, tier, seed, replay=None):
         scen = [{"kind": "lifecycle", "steps": [{"op": op, "stop": stop}]} for _ in range(reps) for op in OPS for stop in ("dead", "behind", "ahead")]
         scen += [{"kind": "lifecycle", "steps": [{"op": "Backlog", "stop": "behind"}]} for _ in range(2 * reps)]
         scen += [{"kind": "lifecycle", "steps": [{"op": "PeerFaults", "stop": "ahead"}]} for _ in range(3 * reps)]
+        # Lifecycle!KillIsComplete: deletion while a piece is being hashed
+        scen += [{"kind": "killhash", "steps": []} for _ in range(2 * reps)]
         for i, sc in enumerate(scen):
             sc["id"] = i
     applied, stats = harness(v, prop, scen, parallel=6, timeout=90)
